@@ -336,7 +336,7 @@ func (cs *ContractSet) loadFile(path string, pkgPath string) error {
 				return err
 			}
 			cur.Clauses = append(cur.Clauses, cl)
-		case "let":
+		case "let", "aux":
 			i := strings.Index(rest, ":=")
 			if i < 0 {
 				return fmt.Errorf("%s: bad let %q", path, ln)
